@@ -1,4 +1,5 @@
 import Sympler.ValidateLemmas
+import Sympler.Gen.ValidateGen
 /-!
 # C17 — invalid input and failing helper tools are reported as errors, never ignored   (PARTIAL)
 
@@ -372,3 +373,12 @@ example : mainModel [.attr ⟨[⟨"dt", .double, some (.dblCmp .gt 0)⟩], false
 set_option exponentiation.threshold 2000 in
 example : mainModel [.attr ⟨[⟨"dt", .double, some (.dblCmp .gt 0)⟩], false⟩ "dt" ['1', 'e', '-', '5', 'x'],
     .box 1 [4, 4, 4], .compile (nominal 1)] = ⟨1, some "ERROR: notNumber", false⟩ := by decide +kernel
+
+/-- **the conversion sites of `PropertyList::fromXML`** (regenerated from property_list.cpp on every run): EVERY call that
+stores an INT or DOUBLE attribute - one per branch of the length comparison with `LONG_MAX` - goes through a function whose body
+is `strtol`/`strtod` with the end-pointer check.  This is the hypothesis under which `C17_malformed_number` (about the model's
+strict scanner) speaks about the code; a branch that converts with `atoi`/`atof` makes it false. -/
+theorem C17_conversion_sites_strict :
+    (∀ f ∈ Sympler.Gen.Validate.intConversions ++ Sympler.Gen.Validate.doubleConversions,
+      f ∈ Sympler.Gen.Validate.strictFunctions) ∧
+    Sympler.Gen.Validate.intConversions ≠ [] ∧ Sympler.Gen.Validate.doubleConversions ≠ [] := by decide
